@@ -630,6 +630,14 @@ func Fail(format string, a ...any) {
 	ex.out.Fails = append(ex.out.Fails, fmt.Sprintf(format, a...))
 }
 
+// NFails returns the number of violations recorded so far in this execution.
+func NFails() int {
+	if ex == nil {
+		return 0
+	}
+	return len(ex.out.Fails)
+}
+
 // LiveRepoGoroutines returns descriptions of live goroutines created by repository code.
 func LiveRepoGoroutines() []string {
 	var out []string
